@@ -1914,7 +1914,86 @@ def k_simdtext(repo):
     return out + "end DryocVerif.Gen.SimdText\n"
 
 
-KERNELS = {"SimdText": k_simdtext, "Pwhash": k_pwhash, "Curve": k_curve, "Protected": k_protected, "Core": k_core, "Argon2": k_argon2, "Utils": k_utils, "Poly1305": k_poly1305, "Blake2b": k_blake2b, "SipHash": k_siphash}
+def k_stream(repo):
+    """the length guards in front of crypto_secretstream_xchacha20poly1305_push / _pull — every `if … { return Err(…) }` in source
+    order up to the first statement that touches the key — with every constant they mention evaluated (crate constants from
+    src/constants.rs, file-local ones from the file itself)"""
+    path = "src/classic/crypto_secretstream_xchacha20poly1305.rs"
+    src = strip_tests(open(os.path.join(repo, path)).read())
+    out = header(path + ", src/constants.rs", "Stream")
+
+    def names_in(e, acc):
+        if isinstance(e, tuple):
+            if e[0] == "var":
+                acc.add(e[1])
+            for x in e[1:]:
+                names_in(x, acc)
+        elif isinstance(e, list):
+            for x in e:
+                names_in(x, acc)
+
+    def resolve(names, consts, depth=0):
+        if depth > 6:
+            fail("stream guards: constant chain too deep")
+        csrc = open(os.path.join(repo, "src/constants.rs")).read()
+        for n in sorted(names):
+            if n in consts or not re.fullmatch(r"[A-Z][A-Z0-9_]*", n):
+                continue
+            if re.search(r"\bconst\s+%s\b" % n, csrc):
+                consts.update(crate_consts(repo, [n]))
+                continue
+            ty, val = find_const(src, n)
+            e = parse_expr(val)
+            refs = set()
+            names_in(e, refs)
+            resolve(refs, consts, depth + 1)
+            v = const_eval(e, Ctx({}, consts))
+            if v is None:
+                fail("stream guards: constant %s is not a literal expression" % n)
+            consts[n] = v
+
+    allc = {}
+    for fn, short in (("crypto_secretstream_xchacha20poly1305_push", "push"), ("crypto_secretstream_xchacha20poly1305_pull", "pull")):
+        _, _, b = find_fn(src, fn)
+        stop = b.find("let associated_data")
+        if stop < 0:
+            fail("%s: `let associated_data` not found" % fn)
+        reg = re.sub(r"\buse\s[^;]*;", "", b[:stop])
+        while True:
+            i = reg.find("dryoc_error!")
+            if i < 0:
+                break
+            j = match_bracket(reg, reg.index("(", i), "(", ")")
+            reg = reg[:i] + "0" + reg[j + 1:]
+        body = parse_body(reg + "}")
+        guards = []
+        for st in body:
+            if st[0] == "let" and st[1][0] == "pvar" and st[1][1].startswith("_"):
+                continue
+            if st[0] in ("expr", "value") and st[1][0] == "if" and st[1][3] is None and len(st[1][2]) == 1 and st[1][2][0][0] == "return" \
+                    and st[1][2][0][1][0] == "call" and st[1][2][0][1][1] == ("var", "Err"):
+                guards.append(st[1][1])
+                continue
+            fail("%s: statement before `let associated_data` is not a length guard: %r" % (fn, st[0:2]))
+        refs = set()
+        for g in guards:
+            names_in(g, refs)
+        consts = {}
+        resolve(refs, consts)
+        allc.update(consts)
+        cx = Ctx({}, consts)
+        cx.types["message_len"] = "usize"
+        cx.types["ciphertext_len"] = "usize"
+        texts = []
+        for g in guards:
+            g = subst_call(subst_call(g, "message.len()", "message_len"), "ciphertext.len()", "ciphertext_len")
+            texts.append(ex(g, cx, "bool"))
+        out += "/-- `%s` returns `Err` at the first of these that is true (source order) -/\ndef %s_guards (message_len ciphertext_len : Nat) : List Bool :=\n  [%s]\n\n" % (fn, short, ",\n   ".join(texts))
+    out += "def constants : List (String × Nat) := [%s]\n\n" % ", ".join('("%s", %d)' % (k, v) for k, v in sorted(allc.items()))
+    return out + "end DryocVerif.Gen.Stream\n"
+
+
+KERNELS = {"Stream": k_stream, "SimdText": k_simdtext, "Pwhash": k_pwhash, "Curve": k_curve, "Protected": k_protected, "Core": k_core, "Argon2": k_argon2, "Utils": k_utils, "Poly1305": k_poly1305, "Blake2b": k_blake2b, "SipHash": k_siphash}
 
 
 def main(argv):
